@@ -856,7 +856,112 @@ func (lowHasher) Eqv(a, b int) bool { return a == b }
 func (lowHasher) Hash(a int) uint32 { return uint32(a % 4) }
 
 // c20Zero: every method of the zero-value Iterator behaves as on an empty iterator.
+// c20NilElements: iterators over an interface element type whose sequence contains nil elements. A nil element is an
+// element: look-ahead caches (TakeWhile, DropWhile, Filter, NextOption, the queue of Duplicate) must neither skip it
+// nor mistake it for "nothing cached".
+func c20NilElements(r *sim.Run) {
+	r.Case = "nil-elements"
+	n := r.Range(1, 6, "n")
+	xs := make([]any, n)
+	for i := range xs {
+		if r.Choose(2, "isNil") == 0 {
+			xs[i] = nil
+		} else {
+			xs[i] = i + 1
+		}
+	}
+	show := func(v []any) string { return fmt.Sprintf("%#v", v) }
+	src := func() fp.Iterator[any] { return fp.IteratorOfSeq(append([]any(nil), xs...)) }
+	always := func(any) bool { return true }
+	never := func(any) bool { return false }
+	nHas := 1 + r.Choose(3, "nHas")
+	drain := func(name string, it fp.Iterator[any], want []any) bool {
+		var got []any
+		var pan any
+		func() {
+			defer func() { pan = recover() }()
+			for {
+				more := false
+				for h := 0; h < nHas; h++ {
+					more = it.HasNext()
+				}
+				if !more {
+					break
+				}
+				got = append(got, it.Next())
+				if len(got) > len(want)+2 {
+					break
+				}
+			}
+		}()
+		r.Probe("sequences-with-nil-elements")
+		if pan != nil {
+			r.Violate("next-panic", "%s over %s (an interface-typed sequence with nil elements) panicked: %v (delivered %s)", name, show(xs), pan, show(got))
+			return false
+		}
+		if show(got) != show(want) {
+			r.Violate("wrong-element", "%s over %s delivered %s, want %s (a nil element is an element)", name, show(xs), show(got), show(want))
+			return false
+		}
+		return true
+	}
+	var isNil, notNil []any
+	for _, x := range xs {
+		if x == nil {
+			isNil = append(isNil, x)
+		} else {
+			notNil = append(notNil, x)
+		}
+	}
+	l, rr := iterator.Duplicate(src())
+	sa, sb := iterator.Span(src(), always)
+	pa, pb := iterator.Partition(src(), func(v any) bool { return v == nil })
+	second := r.Choose(2, "rightFirst") == 1
+	steps := []struct {
+		name string
+		it   fp.Iterator[any]
+		want []any
+	}{
+		{"TakeWhile(true)", src().TakeWhile(always), xs},
+		{"DropWhile(false)", src().DropWhile(never), xs},
+		{"Filter(true)", src().Filter(always), xs},
+		{"FilterNot(false)", src().FilterNot(never), xs},
+		{"Filter(is nil)", src().Filter(func(v any) bool { return v == nil }), isNil},
+		{"Map(identity)", src().Map(func(v any) any { return v }), xs},
+		{"Concat", src().Take(1).Concat(src().Drop(1)), xs},
+		{"Duplicate.left", l, xs},
+		{"Duplicate.right", rr, xs},
+		{"Span(true).prefix", sa, xs},
+		{"Span(true).suffix", sb, nil},
+		{"Partition(is nil).yes", pa, isNil},
+		{"Partition(is nil).no", pb, notNil},
+	}
+	if second {
+		// lagging side first
+		steps[7], steps[8] = steps[8], steps[7]
+		steps[11], steps[12] = steps[12], steps[11]
+	}
+	for _, st := range steps {
+		if !drain(st.name, st.it, st.want) {
+			return
+		}
+	}
+	// NextOption: Some(nil) for a nil element, None only at the end
+	it := src()
+	for i := 0; i <= n; i++ {
+		o := it.NextOption()
+		if o.IsDefined() != (i < n) {
+			r.Violate("wrong-element", "NextOption call %d over %s is defined=%v, want %v", i+1, show(xs), o.IsDefined(), i < n)
+			return
+		}
+	}
+}
+
 func c20Zero(r *sim.Run) {
+	if r.Choose(2, "nilElements") == 1 {
+		c20NilElements(r)
+		return
+	}
 	r.Case = "zero"
 	var z fp.Iterator[int]
 	type step struct {
